@@ -626,6 +626,9 @@ impl<'a, F: EvalComptimeFn> InferenceCtx<'a, F> {
         #[cfg(capy_verif)]
         verif_trace.start(&self.to_infer, self.interner);
 
+        // what every item said it was waiting for, the last time it had to wait
+        let mut waited_for: FxHashMap<ConcreteLoc, Vec<ConcreteLoc>> = FxHashMap::default();
+
         if self.to_infer.is_empty() {
             return InferenceResult {
                 tys: self.tys,
@@ -674,10 +677,45 @@ impl<'a, F: EvalComptimeFn> InferenceCtx<'a, F> {
                                 hir::Expr::Lambda(_)
                             )
                     };
+                    // The other globals follow in the order of their distance from a function:
+                    // in `H :: G; G :: step;` the alias `G` waits for the function itself and
+                    // `H` waits for `G`, so `G` has to be inferred before `H` wherever the two
+                    // are written.
+                    let mut distance: FxHashMap<ConcreteLoc, usize> = FxHashMap::default();
+                    for loc in &cyclic {
+                        if let ConcreteLoc::Global(global) = loc
+                            && is_function(global)
+                        {
+                            distance.insert(*loc, 0);
+                        }
+                    }
+                    for _ in 0..cyclic.len() {
+                        for loc in &cyclic {
+                            if distance.contains_key(loc) || !matches!(loc, ConcreteLoc::Global(_)) {
+                                continue;
+                            }
+                            let nearest = waited_for
+                                .get(loc)
+                                .into_iter()
+                                .flatten()
+                                .filter_map(|dep| distance.get(dep))
+                                .min()
+                                .copied();
+                            if let Some(nearest) = nearest {
+                                distance.insert(*loc, nearest + 1);
+                            }
+                        }
+                    }
+                    let distance_of = |global: &hir::common::ConcreteGlobalLoc| {
+                        distance
+                            .get(&ConcreteLoc::Global(*global))
+                            .copied()
+                            .unwrap_or(usize::MAX)
+                    };
                     cyclic.sort_by(|left, right| match (left, right) {
                         (ConcreteLoc::Global(l_global), ConcreteLoc::Global(r_global)) => {
-                            is_function(r_global)
-                                .cmp(&is_function(l_global))
+                            distance_of(l_global)
+                                .cmp(&distance_of(r_global))
                                 .then(l_global.cmp(r_global))
                         }
                         (ConcreteLoc::Lambda(l_lambda), ConcreteLoc::Lambda(r_lambda)) => {
@@ -734,6 +772,7 @@ impl<'a, F: EvalComptimeFn> InferenceCtx<'a, F> {
                         // println!(" - requires deps");
                         #[cfg(capy_verif)]
                         let verif_deps = deps.clone();
+                        waited_for.insert(inferrable, deps.clone());
                         self.to_infer.insert_deps(inferrable, deps);
                         #[cfg(capy_verif)]
                         verif_trace.task_deps(
